@@ -116,4 +116,15 @@ def serverAcceptsMemory (s : List Char) : Bool :=
   (matchSize SizeGrammar.memorySuffixes SizeGrammar.memoryTrailingB s).isSome
     || SizeGrammar.memoryTypes.any (fun w => w.toList == s)
 
+/-! ### the third party: `hailctl config` (`hail/python/hailtop/hailctl/config/config_variables.py`)
+
+`query/batch_driver_cores`, `query/batch_worker_cores`: `re.fullmatch(CPU_REGEXPAT, x) is not None`;
+`query/batch_driver_memory`, `query/batch_worker_memory`:
+`re.fullmatch(MEMORY_REGEXPAT, x) is not None or x in ('standard', 'lowmem', 'highmem')`. -/
+
+def configAcceptsCores (s : List Char) : Bool := (matchSize SizeGrammar.cpuSuffixes SizeGrammar.cpuTrailingB s).isSome
+def configAcceptsMemory (s : List Char) : Bool :=
+  (matchSize SizeGrammar.memorySuffixes SizeGrammar.memoryTrailingB s).isSome
+    || ["standard", "lowmem", "highmem"].any (fun w => w.toList == s)
+
 end HailVerif.SizeParse
